@@ -435,7 +435,7 @@ pub fn run() {
         }
     }
     // forged handshakes: the attacker worlds of C01 with the attribution clause read for C02
-    let (ast, avio, _) = crate::attack::explore("C02", thorough, mc::budget(thorough, 25.0, 0.5), if thorough { 4 } else { 3 });
+    let (ast, avio, _) = crate::attack::explore("C02", thorough, mc::budget(thorough, 30.0, 0.5), if thorough { 4 } else { 2 });
     rep.set("attacker_worlds_states", ast.states);
     rep.set("attacker_worlds_executions", ast.executions);
     rep.set("attacker_worlds_attributed_events_with_proof", ast.counters.get("attributed_events_with_proof").copied().unwrap_or(0));
